@@ -37,10 +37,12 @@ HFLAGS = ["-std=c++20", "-O0", "-g", "-fsanitize=address,undefined", "-fno-sanit
           "-fno-omit-frame-pointer", "-Wno-deprecated-declarations"]
 MODES = (("0", "-DTETL_ENABLE_CONTRACT_CHECKS=1", "c05_harness_checks"),
          ("1", "-DTETL_ENABLE_CONTRACT_CHECKS_SAFE=1", "c05_harness_safe"))
-RULE = ("every operation of the 11 modelled families (static_vector with trivial / non-trivial / zero storage, inplace_vector, "
-        "string_view, span, array, inplace_string, optional/expected/variant, bitset/basic_bitset, bit functions, div_sat, "
-        "chrono day/month, mdspan stride, C string null checks, static_set range constructor) x every size 0..capacity of the "
-        "small capacities (1,3,4; strings 4 and 20; bitsets 5 and 11) x every index / position / count in "
+RULE = ("every operation of the modelled families (static_vector with trivial / non-trivial / zero storage, inplace_vector, "
+        "string_view, span, array incl. array<T, 0>, inplace_string incl. insert / erase by index, optional/expected/variant, "
+        "bitset/basic_bitset, bit functions, div_sat, chrono day/month, mdspan stride of layout_left / layout_right / layout_stride, "
+        "C string null checks, static_set range constructor, linalg add / copy / swap_elements / matrix_vector_product extents "
+        "checks, to_string<Capacity>) x every size 0..capacity of the "
+        "small capacities (1,3,4 and, for the narrow size field, 255 and 256 at sizes capacity-1 and capacity; strings 4 and 20; bitsets 5 and 11; arrays 0,1,3; linalg extents 0..3) x every index / position / count in "
         "{-1 (iterators), 0 .. size+2, capacity+1, 2^31, 2^32, 2^63-1, 2^63, 2^64-2, 2^64-1} x const / ref-qualified overload x "
         "both configurations (TETL_ENABLE_CONTRACT_CHECKS, ..._SAFE); element values from the seeded PRNG; thorough adds more "
         "contents per size and random argument mixes.  Each line runs in a forked child.  Non-trivial: the call violates the "
@@ -49,42 +51,85 @@ RULE = ("every operation of the 11 modelled families (static_vector with trivial
 ASSUMPTIONS = ["the oracle column is computed in the harness from the documented precondition and std::vector / plain arithmetic (R2)",
                "objects are modelled by capacity + live elements (+ active alternative); element types int / char / a non-trivial int wrapper",
                "replace counts are generated below 2^63 (size_t wrap of pos + count in replace belongs to the known finding of C04)",
-               "array::operator[] is checked only under TETL_ENABLE_CONTRACT_CHECKS_SAFE (TETL_PRECONDITION_SAFE): violating "
-               "indices are generated for the SAFE build only"]
+               "array<T, N>::operator[] with N > 0 is checked only under TETL_ENABLE_CONTRACT_CHECKS_SAFE (TETL_PRECONDITION_SAFE, the "
+               "library's 'all/slow assertions' level): violating indices are generated for the SAFE build only; array<T, 0> is "
+               "checked in both configurations",
+               "inplace_string::insert is driven with units that fit (size + count <= capacity): insert clamps silently otherwise "
+               "(tetl's truncating append, a subject of C04, not a contract check)",
+               "linalg and to_string are modelled by their checks only (the element loops / the digits are not compared)"]
 TRUSTED = ["gen/sites.py (text-level extractor of the check sites; its inventory is cross-checked on every run against the "
            "file:line the real handler reports for each driven site)",
            "hand models Tetl/C05/Model.lean tied to the source by the correspondence run (R1) in both configurations",
            "fork + custom etl::assert_handler + ASan/UBSan as the observer of 'handler before damage'"]
 SEARCH_CAP = 400000
 CLAIMED = True
-TECHNIQUE = ("Lean 4 proof: guard-carrying models = documented-precondition spec for all states and arguments; check-site "
-             "inventory regenerated from the headers on every run and compared in the kernel; fork-per-call correspondence "
-             "run in both contract-check configurations")
+TECHNIQUE = ("Lean 4 proof, for each of the 78 operation schemas of the model language (none is compared only): guard-carrying model = "
+             "documented-precondition spec for all states and arguments; check-site inventory regenerated from the headers on every run "
+             "and compared in the kernel; fork-per-call correspondence run in both contract-check configurations; hand-made inventory "
+             "of documented preconditions that have no check at all")
 LEVEL_TEXT = ("Every TETL_PRECONDITION / _SAFE / TETL_ASSERT site of the current headers is re-extracted on every run; a kernel-checked "
-              "theorem states that this inventory is exactly the list of guards carried by the Lean models (plus an explicit list "
-              "of sites not modelled).  For 45 operation schemas (element access / front / back / push / emplace_back / pop / clear of static_vector over its three storage classes, element access / front / back / pop / append of "
-              "inplace_vector, string_view, span, array, inplace_string; optional / expected / variant access; bit functions, div_sat, "
-              "chrono day/month, mdspan stride, static_set range constructor) Lean proves, for every capacity, object and argument "
+              "theorem states that this inventory is exactly the list of guards carried by the Lean models (plus the two sites inside "
+              "format_to, which no public call can reach).  For EVERY operation schema of the model language (Proved_all: 78 schemas - "
+              "static_vector element access / front / back / push / emplace_back / pop / clear / insert x4 / emplace / range insert / "
+              "erase x2 / resize x2 / assign x2 / the three sized constructors over its three storage classes; inplace_vector; "
+              "string_view; span; array; inplace_string constructors / assign / push / pop / erase (iterator and index) / insert / "
+              "replace; optional / expected / variant access; bitset and basic_bitset accessors and the string constructor; bit "
+              "functions, div_sat, chrono day/month, mdspan stride, C string null checks, static_set range constructor, linalg "
+              "extents checks, to_string; 12 of them are 'checks only' models - C string null checks, linalg, to_string, static_set range "
+              "constructor, mdspan stride: the code after the checks is not modelled, the theorem says which clause fires first) Lean proves, for every capacity, object and argument "
               "(no bound), that the model run equals the specification: a violated documented precondition ends in the handler at "
               "the site of the first violated clause with the object unchanged and before any out-of-range access; a valid call "
-              "never reaches the handler and never leaves the live range.  The models are tied to the code by running every "
+              "never reaches the handler and never leaves the live range.  replace is proved outside the input class of known "
+              "finding F-C05-replace-pre (replace_valid_partial / replace_counterexample).  The models are tied to the code by running every "
               "operation with valid and violating arguments (boundary, boundary+1, 2^31..2^64-1) in forked children of two "
               "sanitizer builds with a snapshotting assert handler, and comparing site (file:line), snapshot and result.")
 LEVEL_NOTE = ("Trusted: Lean kernel + propext/Classical.choice/Quot.sound; the text-level site extractor; the hand models' "
-              "fidelity outside the explored inputs; g++-12/ASan/UBSan/fork as observer.  Sites carried but not driven "
-              "(linalg, format, to_string) and operations compared only by the differential run are listed in evidence "
-              "coverage.unmodelled_sites / correspondence_only.")
-# operations modelled and compared on every run whose equation model = spec is not (yet) a Lean theorem
-CORRESPONDENCE_ONLY = [
-    "static_vector: insert(pos,n,x), insert(pos,const&), insert(pos,&&), emplace, "
-    "insert(pos,first,last), erase(pos), erase(first,last), resize(n), resize(n,v), assign(n,v), assign(first,last), "
-    "the three sized constructors (modelled with every nested guard incl. the storage classes; Tetl.C05.Props.Proved = false)",
-    "basic_inplace_string: (ptr,len) constructor, assign(ptr,count), push_back, erase(first,last), replace overloads "
-    "(replace: known finding F-C05-replace-pre, counterexample theorem only)",
-    "bitset / basic_bitset bit accessors, bitset(string_view,pos,n)", "C string null checks (memmove, strcpy, strncpy, strchr, wcscpy, wcsncpy)"]
-UNPROVED_OBSERVED = ["sites of linalg (extents equality), format and to_string are inventoried (sites_accounted) but have no model operation and are not driven"]
+              "fidelity outside the explored inputs; g++-12/ASan/UBSan/fork as observer.  Well-formedness hypotheses of run_eq_expect "
+              "(Tetl.C05.Props.WF): class invariant, capacity < 2^64, storage class matches the capacity, fresh object for constructors, "
+              "inserted units fit, replace outside the known-finding class, bit position a value of the word type, div_sat operands int.  "
+              "NOT detected by this method: an operation that documents a precondition but has no check at all is in no regenerated "
+              "inventory; the hand-made list coverage.documented_preconditions_without_check (built from the \\pre comments and the "
+              "standard's preconditions of the modelled families, each probed) records the ones found - 4 groups fixed, 7 open (array "
+              "operator[] outside SAFE, mdspan element access and extents::extent, optional/expected operator->, the silently clamping "
+              "string members, format_to).  The 'documented precondition' of Spec.lean is taken from the \\pre comment or the standard, not "
+              "from the condition text (chrono day/month: 255 is valid).  The two sites inside format_to are inventoried "
+              "(sites_accounted) but not driven: format_to does not compile for any public output iterator (evidence coverage.unmodelled_sites).")
+# Inventory of operations of the modelled families that have a precondition in the documentation (`\\pre`) or in the
+# standard but NO TETL_PRECONDITION in the source (the site inventory cannot see them).  Built by reading the `\\pre`
+# comments (all 29 have a check) and [span], [string.view], [basic.string], [array], [vector]/[inplace.vector],
+# [optional], [expected], [variant], [bitset], [mdspan], [numeric.sat], [time.cal] against the headers, and by
+# probing each candidate in a contract-check build (2026-09-28).  status: fixed = a check was added on fix-c05b and
+# the operation is now driven; open = no check, recorded here (not driven, no theorem).
+UNCHECKED_INVENTORY = [
+    {"op": "span::first<Count>(), last<Count>(), subspan<Offset, Count>() on a span of dynamic extent", "std": "[span.sub] Count <= size(), Offset <= size()", "status": "fixed (F-C05-span-template-members-unchecked)"},
+    {"op": "span<T, N>(first, count), span<T, N>(range), span<T, N>(span<U, dynamic_extent>)", "std": "[span.cons] count == extent", "status": "fixed (F-C05-span-template-members-unchecked)"},
+    {"op": "array<T, 0>::front(), back(), operator[]", "std": "[array.zero] undefined", "status": "fixed (F-C05-array-zero-size-unchecked)"},
+    {"op": "basic_inplace_string::insert(index, ...), erase(index, count)", "std": "[string.insert]/[string.erase] index <= size() (out_of_range)", "status": "fixed (F-C05-string-insert-index-unchecked)"},
+    {"op": "array<T, N>::operator[] (N > 0) in the TETL_ENABLE_CONTRACT_CHECKS configuration", "std": "[sequence.reqmts] n < size()", "status": "open: TETL_PRECONDITION_SAFE by design (the library's 'all/slow assertions' level); checked and proved for the SAFE configuration only"},
+    {"op": "mdspan::operator()/operator[], layout_left/right/stride::mapping::operator()(indices...)", "std": "[mdspan.mdspan.members] indices form a multidimensional index in extents()", "status": "open: no check in either configuration (element access, same policy as array::operator[]); ASan heap-buffer-overflow on mdspan<int, extents<int,1,3>>(p)(0, 5)"},
+    {"op": "extents::extent(r), static_extent(r)", "std": "[mdspan.extents.obs] r < rank()", "status": "open: no check; extent(5) of a rank-2 extents reads an unrelated value"},
+    {"op": "optional::operator->, expected::operator->", "std": "[optional.observe]/[expected.object.obs] has_value()", "status": "open: documented in optional.hpp as total ('The pointer is null if the optional is empty'); expected follows the same convention"},
+    {"op": "basic_inplace_string::substr / copy / compare / append(str, pos, n) / assign(str, pos, n) with pos > size(), resize(n > capacity())", "std": "[basic.string] throws out_of_range / length_error", "status": "open: clamp silently by design (no-exception API, 'Fails silently'); compare(pos, ...) reaches the check of string_view::substr"},
+    {"op": "basic_inplace_string::insert / append / push_back past the capacity, static_set::insert / static_vector-backed containers when full via insert()", "std": "length_error / bad_alloc", "status": "open: insert/append clamp, static_set::insert returns {nullptr, false}; push_back has a check"},
+    {"op": "etl::format_to: malformed format string / more fields than arguments", "std": "[format.err] format_error", "status": "open: two internal checks exist but format_to does not compile for any public output iterator"},
+]
+# operations modelled and compared on every run whose equation model = spec is not (yet) a Lean theorem: none
+CORRESPONDENCE_ONLY = []
+UNPROVED_OBSERVED = ["the two check sites inside format_to / format_escaped_sequences are inventoried (sites_accounted) but have no model "
+                     "operation and are not driven: etl::format_to(out, fmt, args...) constructs format_context{out}, which only accepts "
+                     "back_insert_iterator<detail::fmt_buffer<char>> - it does not compile for char*, back_inserter(inplace_string) or any "
+                     "other public output iterator, and detail::fmt_buffer keeps a pointer to its by-value constructor parameter "
+                     "(ASan: stack-buffer-overflow on first use)",
+                     "the non-random-access branch of static_vector::insert(pos, first, last) / move_insert / assign / the range constructor "
+                     "(no size check before the loop) cannot be instantiated: assert_valid_iterator_pair static_asserts is_pointer_v on the "
+                     "iterators, so only pointers (random access) compile; it has no model",
+                     "not covered: inplace_vector<T, 0>; objects after erase/insert as pre-states (states are built by push_back); the "
+                     "valid streams of the other properties are not re-run in the contract-check builds (DESIGN §4 C05)",
+                     "inner guards that the outer documented precondition implies (unsafe_set_size, unsafe_destroy, move_insert's capacity "
+                     "check, inplace_vector::unsafe_set_size, unsafe_at) never fire on the explored inputs; that they cannot fire is "
+                     "part of run_eq_expect"]
 THEOREMS = {"*": ["Tetl.C05.Props.sites_accounted", "Tetl.C05.Props.run_eq_expect", "Tetl.C05.Props.violation_asserts",
-                  "Tetl.C05.Props.valid_never_asserts"]}
+                  "Tetl.C05.Props.valid_never_asserts", "Tetl.C05.Props.Proved_all", "Tetl.C05.Props.replace_valid_partial"]}
 
 U63, U64 = 2 ** 63, 2 ** 64
 BIG = [2 ** 31, 2 ** 32, U63 - 1, U63, U64 - 2, "npos"]
@@ -164,6 +209,25 @@ def generate(tier, seed):
                             add("sv.assign_rng %s xs=%s ord=%d" % (h, fl(xs), o))
                             if n == 0:
                                 add("sv.ctor_rng T=%s cap=%d xs=%s ord=%d" % (T, cap, fl(xs), o))
+        # ---- static_vector at the 255 / 256 boundary of its narrow size field (smallest_size_t<Capacity>)
+        for cap in (255, 256):
+            for n in (cap - 1, cap):
+                e = content(n)
+                h = "T=triv cap=%d e=%s" % (cap, fl(e))
+                v = rnd.randint(10, 99)
+                for i in (n - 1, n, n + 1, 255, 256, 257, "npos"):
+                    add("sv.at %s i=%s k=0" % (h, i))
+                for op in ("sv.push", "sv.emplace_back"):
+                    add("%s %s v=%d" % (op, h, v))
+                add("sv.pop %s" % h)
+                add("sv.back %s k=0" % h)
+                for cnt in (0, 1, 2, 255, 256, 257, "npos"):
+                    add("sv.insert_n %s p=%d n=%s v=%d" % (h, n // 2, cnt, v))
+                add("sv.insert_cr %s p=0 v=%d" % (h, v))
+                add("sv.erase %s p=%d" % (h, n - 1))
+                for m in (0, 1, 254, 255, 256, 257, 300):
+                    add("sv.resize %s n=%d" % (h, m))
+                    add("sv.assign_n %s n=%d v=%d" % (h, m, v))
         # ---- inplace_vector
         for cap in (1, 3, 4):
             for n in range(cap + 1):
@@ -186,22 +250,34 @@ def generate(tier, seed):
                     add("%s.at %s a=%s" % (fam, h, i))
                 add("%s.front %s" % (fam, h))
                 add("%s.back %s" % (fam, h))
+            for ext in (0, 1, 2, 3, 4, 6):
+                for k in (0, 1, 2):
+                    add("sp.ctor_ext %s ext=%d k=%d" % (h, ext, k))
             for a in idxs(n):
                 add("vw.remove_prefix %s a=%s" % (h, a))
                 add("vw.remove_suffix %s a=%s" % (h, a))
                 add("sp.first %s a=%s" % (h, a))
                 add("sp.last %s a=%s" % (h, a))
+                if isinstance(a, int) and a < 7:      # the compile-time counts the harness instantiates
+                    add("sp.first_t %s a=%s" % (h, a))
+                    add("sp.last_t %s a=%s" % (h, a))
+                if isinstance(a, int) and a < 6:
+                    for b in [0, 1, 2, 3, 4, "npos"]:
+                        add("sp.subspan_t %s a=%s b=%s" % (h, a, b))
                 for b in list(range(0, n + 2)) + ["npos", U64 - 2, U63]:
                     add("vw.substr %s a=%s b=%s" % (h, a, b))
                     add("vw.copy %s a=%s b=%s" % (h, b, a))
                     add("sp.subspan %s a=%s b=%s" % (h, a, b))
         # ---- array (violating indices only where the check is active: SAFE)
-        for cap in (1, 3):
+        for cap in (0, 1, 3):
             e = content(cap)
             for k in (0, 1):
                 for i in idxs(cap):
                     valid = isinstance(i, int) and i < cap
-                    add("ar.at cap=%d e=%s i=%s k=%d" % (cap, fl(e), i, k), "ar.at" if valid else "ar.at!safe")
+                    # a zero-size array checks `false` in both configurations
+                    add("ar.at cap=%d e=%s i=%s k=%d" % (cap, fl(e), i, k), "ar.at" if valid or cap == 0 else "ar.at!safe")
+                add("ar.front cap=%d e=%s k=%d" % (cap, fl(e), k))
+                add("ar.back cap=%d e=%s k=%d" % (cap, fl(e), k))
         # ---- inplace_string
         for cap in (4, 20):
             sizes = range(cap + 1) if cap == 4 else (0, 1, 7, 19, 20)
@@ -233,6 +309,17 @@ def generate(tier, seed):
                 for a in sorted(set(range(0, min(n, 5) + 3)) | {n, n + 1, n + 2}):
                     for b in sorted(set(range(0, min(n, 5) + 3)) | {n, n + 1, n + 2, cap + 5}):
                         add("str.erase_rng %s a=%s b=%s" % (h, a, b))
+                # insert(index, ...) / erase(index, count): the inserted units fit (insert clamps silently otherwise)
+                ctr = 0
+                for a in idxs(n, cap):
+                    for j, m in enumerate(sorted(x for x in {0, 1, min(3, cap - n), cap - n} if x <= cap - n)):
+                        xs = content(m, 65, 90)
+                        ctr += 1
+                        for k in (range(1, 7) if j == 0 else (1 + ctr % 6,)):   # every overload at every index, then rotating
+                            add("str.insert %s a=%s xs=%s k=%d" % (h, a, fl(xs), k))
+                        add("str.insert_fill %s a=%s b=%d v=%d" % (h, a, m, rnd.randint(97, 122)))
+                    for b in sorted({0, 1, n + 1}) + ["npos"]:
+                        add("str.erase_idx %s a=%s b=%s" % (h, a, b))
                 if n <= 7:
                     for a in range(0, n + 2):
                         for b in range(0, n + 2):
@@ -274,13 +361,13 @@ def generate(tier, seed):
                                   | ({2 ** 32, 2 ** 32 + 5, 2 ** 63} if w == 64 else set())):
                     if pos < top:
                         add("bit which=%d w=%d pos=%d" % (which, w, pos))
-        for x in (0, 1, -7, 2 ** 31 - 1, -(2 ** 31)):
-            for y in (0, 1, -1, 3):
+        for x in (0, 1, -7, 7, 2 ** 31 - 1, -(2 ** 31), -(2 ** 31) + 1, rnd.randint(-(2 ** 31), 2 ** 31 - 1)):
+            for y in (0, 1, -1, 3, -3, 2 ** 31 - 1, -(2 ** 31), rnd.randint(-(2 ** 31), 2 ** 31 - 1)):
                 add("div_sat x=%d y=%d" % (x, y))
         for d in (0, 1, 12, 31, 254, 255, 256, 300, 2 ** 32 - 1):
             add("day d=%d" % d)
             add("month d=%d" % d)
-        for lay, e in (("layout_left", [1, 2, 6]), ("layout_right", [12, 4, 1])):
+        for lay, e in (("layout_left", [1, 2, 6]), ("layout_right", [12, 4, 1]), ("layout_stride", [24, 8, 2])):
             for r in idxs(3):
                 add("stride l=%s r=%s e=%s" % (lay, r, fl(e)))
         for fn in ("memmove", "strcpy", "strncpy", "wcscpy", "wcsncpy"):
@@ -290,6 +377,19 @@ def generate(tier, seed):
         for fn in ("strchr0", "strchr1"):
             for s in (0, 1):
                 add("null fn=%s s=%d" % (fn, s))
+        for nx in range(0, 4):
+            for ny in range(0, 4):
+                add("linalg fn=copy nx=%d ny=%d" % (nx, ny))
+                add("linalg fn=swap nx=%d ny=%d" % (nx, ny))
+                for nz in range(0, 4):
+                    add("linalg fn=add nx=%d ny=%d nz=%d" % (nx, ny, nz))
+                for r in range(0, 3):
+                    for c in range(0, 3):
+                        add("linalg fn=mvp r=%d c=%d nx=%d ny=%d" % (r, c, nx, ny))
+        for cap in (2, 4, 21):
+            for x in sorted({0, 1, 9, 10, -1, -9, -10, 99, 100, 999, 1000, -99, -100, 2 ** 31 - 1, -(2 ** 31), 2 ** 63 - 1, -(2 ** 63),
+                             rnd.randint(-10 ** 6, 10 ** 6), rnd.randint(-(2 ** 63), 2 ** 63 - 1)}):
+                add("to_string cap=%d x=%d" % (cap, x))
         for m in range(0, 6):
             xs = sorted(set(content(m, 1, 50)))
             add("set.ctor xs=%s ord=1" % fl(xs))
@@ -308,7 +408,7 @@ def generate(tier, seed):
 
 def nontrivial(case, rows):
     r = rows[0]
-    return r.spec == "assert" or ("e=[]" not in case.lines[0])
+    return r.spec.startswith("assert") or ("e=[]" not in case.lines[0])
 
 
 def args_of(line):
@@ -338,11 +438,14 @@ def classify(case, k, row):
     a = args_of(line)
     if op == "str.replace":
         n, pos, cnt = len(lst(a["e"])), num(a["a"]), num(a["b"])
-        if pos <= n and not (pos < n and (pos + cnt) % U64 < n) and row.impl.startswith("assert("):
+        if pos <= n and not (pos + cnt < n) and row.impl.startswith("assert("):   # Props.ReplaceExcluded
             return "F-C05-replace-pre"
     if op == "str.replace_sub":
         n, pos, m, pos2 = len(lst(a["e"])), num(a["a"]), len(lst(a["xs"])), num(a["c"])
-        if pos <= n and pos2 <= m and not (pos < n and pos2 < m) and row.impl.startswith("assert("):
+        # the boundary values on which tetl's strict checks differ from the documented ones: exactly the complement of the
+        # hypothesis `pos ≠ size ∧ pos2 ≠ |str|` of run_eq_expect (Props.WF) - a valid call that fires, or (pos = size,
+        # pos2 > |str|) a violating call whose handler runs at the site of the other clause
+        if (pos == n or pos2 == m) and row.impl.startswith("assert("):
             return "F-C05-replace-pre"
     return None
 
@@ -354,7 +457,8 @@ def group_of(case):
 # ------------------------------------------------------------------ relations
 
 def evaluate(cases, results, site_set):
-    """R2 spec = oracle; R3 impl satisfies the spec (handler iff the spec says so, at an inventoried site, object unchanged,
+    """R2 spec = oracle; R3 impl satisfies the spec (handler iff the spec says so, at the inventoried site of the first violated
+    documented clause, object unchanged,
     no sanitizer report first; identical result otherwise); R1 impl = model (site, snapshot flag and result)."""
     fails = []
     for c, rows in zip(cases, results):
@@ -364,12 +468,15 @@ def evaluate(cases, results, site_set):
                 break
             if r.impl == "skipped":
                 break
-            if r.spec != r.std:
+            # the spec column carries the site of the first violated documented clause: `assert(file:line)`
+            spec_assert = r.spec.startswith("assert(")
+            if ("assert" if spec_assert else r.spec) != r.std:
                 fails.append(Failure("R2", c, k, r))
                 break
             if r.impl.startswith("assert("):
                 site = r.impl[7:r.impl.index(")")]
-                ok = r.spec == "assert" and r.impl.endswith("same=1") and site in site_set
+                ok = (spec_assert and r.impl.endswith("same=1") and site in site_set
+                      and site == r.spec[7:r.spec.index(")")])
             else:
                 ok = r.impl == r.spec
             if not ok:
@@ -522,7 +629,7 @@ def run(ctx, replay=None):
             "cases": f.case.lines, "failing_line": f.line_idx,
             "impl": row.impl, "model": row.model, "spec": row.spec, "std": row.std,
             "expected": "handler at an inventoried site with the object unchanged, before any sanitizer report"
-                        if row.spec == "assert" else "the call returns %s and the handler is not invoked" % row.spec,
+                        if row.spec.startswith("assert") else "the call returns %s and the handler is not invoked" % row.spec,
             "theorems": ["Tetl.C05.Props.sites_accounted", "Tetl.C05.Props.violation_asserts", "Tetl.C05.Props.valid_never_asserts"],
             "lean_error": proof_broken, "source": lib.source_hashes(SOURCES),
             "failing_input_found": f.kind == "R3",
@@ -583,11 +690,12 @@ def run(ctx, replay=None):
         "sites_fired_by_a_violating_call": len(fired_sites),
         "sites_never_fired": [s for s in all_sites if s not in fired_sites],
         "unmodelled_sites": ["%s:%d %s [%s]" % (s["file"], s["line"], s["qfunc"], s["cond"]) for s in inv
-                             if s["file"].startswith(("_linalg/", "_format/")) or s["file"] == "_string/to_string.hpp"],
+                             if s["file"].startswith("_format/")],
         "source_hashes": lib.source_hashes(SOURCES),
         "notes": ctx.notes,
         "unproved_observed": UNPROVED_OBSERVED,
         "correspondence_only": CORRESPONDENCE_ONLY,
+        "documented_preconditions_without_check": UNCHECKED_INVENTORY,
     }
     ctx.write_evidence(coverage, list(ASSUMPTIONS))
     if machinery:
